@@ -389,7 +389,7 @@ Definition py_type_table : list (string * list string) :=
    ("PyString", ["PyString"; "SpecialTagDirective"]);
    ("SicString", ["SicString"; "SpecialTagDirective"]);
    ("Jsonify", ["Jsonify"; "SpecialTagDirective"]);
-   ("NoneType", []);
+   ("NoneType", ["NoneType"]);
    ("bool", ["bool"; "int"]);
    ("int", ["int"]);
    ("float", ["float"]);
